@@ -62,6 +62,10 @@ def _scenarios(tier):
     out.append((["InitCustKeyAuthBlock()", "InitEccAuthBlock(3)", upd], [cust_w % 0, "EccDecryptor(3, rcpt)"], [cust_w % 0, "EccDecryptor(3, rcpt)", "ConfigSecurityCodeEncryptor(code)"], [1, 3, 2], "all three blocks, all decryptors"))
     out.append((["InitCustKeyAuthBlock()", "InitEccAuthBlock(3)", upd], [cust_w % 0, "EccDecryptor(3, rcpt)"], ["EccDecryptor(3, rcpt)"], [1, 3, 2], "all three blocks, only the ECC decryptor"))
     out.append((["InitEccAuthBlock(0)"], ["EccDecryptor(0, rcpt)"], ["EccDecryptor(1, rcpt)"], [3], "ECC block, reader only has another selector"))
+    # several ECC (de)cryptors with different selectors in one list: the one whose selector matches must be used, wherever it stands
+    out.append((["InitEccAuthBlock(2)"], ["EccDecryptor(0, rcpt2)", "EccDecryptor(2, rcpt)"], ["EccDecryptor(0, rcpt2)", "EccDecryptor(2, rcpt)"], [3], "ECC block selector 2, matching decryptor listed second"))
+    out.append((["InitEccAuthBlock(3)"], ["EccDecryptor(3, rcpt)", "EccDecryptor(1, rcpt2)"], ["EccDecryptor(1, rcpt2)", "ConfigSecurityCodeEncryptor(code)", "EccDecryptor(3, rcpt)"], [3], "ECC block selector 3, matching decryptor listed last on the reading side"))
+    out.append((["InitEccAuthBlock(1)", upd], ["EccDecryptor(0, rcpt2)", "EccDecryptor(1, rcpt)"], ["ConfigSecurityCodeEncryptor(code)", "EccDecryptor(0, rcpt2)", "EccDecryptor(1, rcpt)"], [3, 2], "ECC selector 1 + update, mixed decryptor list"))
     return out
 
 
@@ -93,7 +97,7 @@ def bec2_file_rules(prog, chk, pid, tier, want=("roundtrip", "same-key", "fresh"
             counter.clear()
             src = DRV % {"blocks": ", ".join(blocks), "wenc": ", ".join(wenc), "renc": ", ".join(renc)}
             # the recipient's key pair: an abstract private key object made by the (hooked) generator before the run proper
-            src = src.replace("    bf3 = Bf3FileC(", "    rcpt = generate_private_ecc_key()\n    bf3 = Bf3FileC(", 1)
+            src = src.replace("    bf3 = Bf3FileC(", "    rcpt = generate_private_ecc_key()\n    rcpt2 = generate_private_ecc_key()\n    bf3 = Bf3FileC(", 1)
             args = dict(base_args, sk=sbytes(sk), ver=ver, rcpt=NONE)
             ex, res = stk.run(B2, src, args)
             label = "%s%s" % (desc, "" if not any("Update" in b for b in blocks) else ", version %s" % show(ver, 2))
@@ -212,9 +216,11 @@ def _ecc_layout(ex, res, raw, blocks, sk, counter, label):
         ku = unsnap(k)
         if not (ku.op == "slice" and is_const(ku.args[2]) and cval(ku.args[2]) == 16 and unsnap(ku.args[1]) is NONE and "sha256" in kt and "digest" in kt and "dh" in kt):
             return (label, "AES key is not sha256(ECDH secret).digest()[:16] (%s)" % kt[:100])
-        # the ECDH secret pairs this block's ephemeral key with the recipient
+        # the ECDH secret pairs this block's ephemeral key with the recipient (the first key generated in the scenario: d1)
         if show(q.args[1], 2) not in kt:
             return (label, "the ECDH secret is not computed with this block's ephemeral key")
+        if "?d1_" not in kt:
+            return (label, "the ECDH secret is not computed with the public key of the encryptor whose selector matches the block (%s)" % kt[:120])
     return None
 
 
